@@ -44,6 +44,9 @@ type scenario struct {
 	// poolSize bounds the pool (0 = unbounded); submitter specs starting with "~"
 	// are low-priority submissions.
 	poolSize int
+	// uploadsInOrder: apply each round's parallel tile uploads in canonical order
+	// (scenarios whose subject is not the subsets of the parallel uploads).
+	uploadsInOrder bool
 }
 
 type actorSpec struct {
@@ -433,7 +436,7 @@ func runExec(t *testing.T, sc *scenario, prefix []int) *verifmc.ExecResult {
 		// With several instances the parallel tile uploads of each are applied in
 		// canonical order (every subset of them is the subject of the
 		// single-instance crash scenarios of C03/C04).
-		s.AnonInOrder = len(sc.actors) > 0
+		s.AnonInOrder = len(sc.actors) > 0 || sc.uploadsInOrder
 		verifmc.Cur = s
 		defer func() {
 			verifmc.Cur = nil
